@@ -232,6 +232,24 @@ func (h *memoHarness) Gen(r *Rand, tier string, clean bool) any {
 		}
 		c.Clients = append(c.Clients, ops)
 	}
+	if r.Chance(0.35) {
+		// hot spot: every reader repeats the same read, about a triple the writer adds or removes, through the
+		// writer's handle - in-flight reads of several readers meet each other and the write
+		x := w[0].Ts[0]
+		hot := MemoOp{K: "exist", Ts: []int{x}}
+		if r.Chance(0.4) {
+			hot = MemoOp{K: "lookup", L: &LookupCall{M: r.Intn(NumLookups), S: c.U[x][0], P: c.U[x][1], O: c.U[x][2]}}
+		}
+		for len(c.Clients) < 3 {
+			c.Clients = append(c.Clients, nil)
+		}
+		for k := 1; k < len(c.Clients); k++ {
+			c.Clients[k] = nil
+			for i, n := 0, r.Range(2, 4); i < n; i++ {
+				c.Clients[k] = append(c.Clients[k], hot)
+			}
+		}
+	}
 	c.Preempt = r.Intn(5)
 	c.PMean = []int{10, 30, 80}[r.Intn(3)]
 	return c
